@@ -47,11 +47,20 @@ class MeshLine1(MeshSimplex, Mesh):
         newt[1, ::2] = newt[0, 1::2]
         newt[1, 1::2] = t[1]
 
+        # element k is split into the elements 2 * k and 2 * k + 1
+        subdomains = None
+        if self._subdomains is not None:
+            new_t = np.arange(2 * t.shape[1], dtype=np.int32).reshape((-1, 2))
+            subdomains = {
+                name: np.sort(new_t[ixs].flatten())
+                for name, ixs in self._subdomains.items()
+            }
+
         return replace(
             self,
             doflocs=newp,
             t=newt,
-            _subdomains=None,
+            _subdomains=subdomains,
         )
 
     def _adaptive(self, marked):
